@@ -619,6 +619,7 @@ package schema
 
 //@ spec stepWF(s *CallableStepSchema[StepData, InputType]) bool = s.handler != nil && s.stepData != nil && s.InputValue != nil && (forall k string :: k in s.stepData ==> s.stepData[k] != nil && s.stepData[k].startedWG != nil) && (forall d any :: validOK(s.InputValue, d) ==> typeOf(d) == type(InputType))
 
+//@ monitor CallableStepSchema.initializerMutex protects stepData insert-only stepData
 //@ func CallableStepSchema.setupStepData(s, runID) -> res
 //@   requires s.stepData != nil && (forall k string :: k in s.stepData ==> s.stepData[k] != nil && s.stepData[k].startedWG != nil)
 //@   ensures res != nil && res.startedWG != nil && runID in s.stepData && s.stepData[runID] == res
